@@ -208,16 +208,28 @@ theorem proceed_reply (b : Bytes) (hb : b.length = C07.scratchLen) (s : St) :
   rw [need_of _ (by simp [hb', C07.IPv4AddrLen])]
   simp [C07.IPv4AddrLen, List.replicate]
 
-/-- Abort(code) writes the reply of the regenerated table (see `reply_table`). -/
-theorem abort_reports_dial_result (b : Bytes) (hb : b.length = C07.scratchLen) (code : Nat) (s : St) :
-    abort b code s = (.ok (), { s with out := s.out ++
-      [cVersion, u8 (replyFromDialResultCode code), 0, atypV4, 0, 0, 0, 0, 0, 0] }) := by
+/-- `abort_reports_dial_result`: for EVERY `conn.DialResult` — every code and whatever `Err` is (nil, a matching
+or non-matching errno, wrapped or not, a resolver error, the router's rejection, an opaque error) —
+Abort writes exactly the reply the regenerated table gives for `dr.code`, hence (by `reply_table`) the RFC reply
+of the outcome. Tied to the source by the fingerprint `Gen.C07.abortUsesCode` (the argument of
+ReplyFromDialResultCode in serverPendingConn.Abort is `dialResult.Code`). -/
+theorem abort_reports_dial_result (b : Bytes) (hb : b.length = C07.scratchLen) (dr : DialResult) (s : St) :
+    C07.abortUsesCode = true ∧
+    abort b dr s = (.ok (), { s with out := s.out ++
+      [cVersion, u8 (replyFromDialResultCode dr.code), 0, atypV4, 0, 0, 0, 0, 0, 0] }) ∧
+    (dr.code < 256 → replyFromDialResultCode dr.code = specReply dr.code) := by
+  refine ⟨by decide, ?_, fun h => (reply_table dr.code h).1⟩
   have hb' : b.length = 262 := hb
   unfold abort replyWithStatus
   simp only [bind_def]
   rw [need_of _ (by simp [hb', C07.IPv4AddrLen])]
   simp [C07.IPv4AddrLen, List.replicate]
 
+/-- HTTP CONNECT: a failed dial is reported as 502 for every DialResult. -/
+theorem abortH_reports_502 (dr : DialResult) (s : St) :
+    abortH dr s = (.ok (), { s with out := s.out ++ C07.status502 }) := rfl
+
+example : (DialResult.mk 13 .rejected).code < 256 := by decide
 
 /-- Shadowsocks none: the server extracts the client's address and the tunnel starts with payload ++ later bytes. -/
 theorem none_faithful (a : Addr) (ha : a.wf = true) (payload early : Bytes) (cs : Chunks)
@@ -399,3 +411,4 @@ end SSV.C07
 #print axioms SSV.C07.transparent_after_handshake_client
 #print axioms SSV.C07.connect_faithful
 #print axioms SSV.C07.basic_auth_gate
+#print axioms SSV.C07.abortH_reports_502
